@@ -61,10 +61,12 @@ func genAGCase(t *rapid.T) AGCase {
 // idleScheduler knows no torrents.
 type idleScheduler struct{ scheduler.ReloadableScheduler }
 
-func (idleScheduler) Download(namespace string, d core.Digest) error { return scheduler.ErrTorrentNotFound }
-func (idleScheduler) RemoveTorrent(d core.Digest) error              { return nil }
-func (idleScheduler) Probe() error                                   { return nil }
-func (idleScheduler) Stop()                                          {}
+func (idleScheduler) Download(namespace string, d core.Digest) error {
+	return scheduler.ErrTorrentNotFound
+}
+func (idleScheduler) RemoveTorrent(d core.Digest) error { return nil }
+func (idleScheduler) Probe() error                      { return nil }
+func (idleScheduler) Stop()                             {}
 
 // noTags is a build-index client that knows no tags.
 type noTags struct{ tagclient.Client }
